@@ -1548,3 +1548,10 @@ mod tests {
         assert_eq!(indexes, vec![e1, n2]);
     }
 }
+
+// Verification hook (inactive unless built with `--cfg agdb_verif` under Kani).
+#[cfg(all(agdb_verif, kani))]
+#[allow(unused, dead_code, clippy::all)]
+pub(crate) mod verif_h {
+    include!(concat!(env!("AGDB_VERIF_HARNESS"), "/graph_h.rs"));
+}
